@@ -141,6 +141,48 @@ theorem srcDone_runsBy (key src : ε → Nat) (es : List ε) (h : FlatDone key s
 
 end Runs
 
+/-! ### acyclicity from node times -/
+
+section Rank
+variable {α : Type} [LinearOrder α]
+
+theorem countP_lt_of_imp {γ : Type} (p q : γ → Bool) (l : List γ) (himp : ∀ x ∈ l, p x = true → q x = true)
+    (x : γ) (hx : x ∈ l) (hq : q x = true) (hp : p x = false) : l.countP p < l.countP q := by
+  induction l with
+  | nil => cases hx
+  | cons y l ih =>
+    have hle : l.countP p ≤ l.countP q :=
+      List.countP_mono_left (fun z hz => himp z (List.mem_cons_of_mem _ hz))
+    rw [List.countP_cons, List.countP_cons]
+    rcases List.mem_cons.mp hx with rfl | hxl
+    · simp only [hq, hp, if_true]
+      simp
+      omega
+    · have := ih (fun z hz => himp z (List.mem_cons_of_mem _ hz)) hxl
+      by_cases hpy : p y = true
+      · have hqy := himp y (List.mem_cons_self ..) hpy
+        simp only [hpy, hqy, if_true]; omega
+      · have hpy' : p y = false := by simpa using hpy
+        rw [hpy']
+        have h0 : (if false = true then 1 else 0) = 0 := by simp
+        rw [h0]
+        split_ifs <;> omega
+
+/-- strictly increasing node times along every edge give a natural-number rank (the number of
+edge sources that are strictly younger) that increases along every edge: the graph is acyclic -/
+theorem exists_rank (time : Nat → α) (es : List DEdge) (hval : ∀ e ∈ es, time e.src < time e.dst) :
+    ∃ rank : Nat → Nat, ∀ e ∈ es, rank e.src < rank e.dst := by
+  refine ⟨fun u => (es.map (fun e => time e.src)).countP (fun t => decide (t < time u)), ?_⟩
+  intro e he
+  apply countP_lt_of_imp _ _ _ _ (time e.src) (List.mem_map.mpr ⟨e, he, rfl⟩)
+  · simpa using hval e he
+  · simp
+  · intro t _ ht
+    have : t < time e.src := by simpa using ht
+    simpa using lt_trans this (hval e he)
+
+end Rank
+
 /-! ### a pass along groups -/
 
 section PassLemmas
@@ -505,48 +547,42 @@ theorem validGroups_relabel (π σ : Nat → Nat) (n : Nat)
     rw [gkey_map_relabel π σ g (hv.ok.nonempty g hg)]
     exact hlt _ (hv.inRange g hg)
 
+/-- the runs of a flat edge order that keeps destinations together and finishes sources first -/
+theorem validGroups_runsBy (es : List DEdge) (n : Nat)
+    (hg : ((runsBy (·.dst) es).map gkey).Nodup) (hf : FlatDone (·.dst) (·.src) es)
+    (hr : ∀ e ∈ es, e.dst < n) : ValidGroups (runsBy (·.dst) es) n := by
+  refine ⟨⟨runsBy_ne_nil _ es, hg⟩, ?_, srcDone_runsBy _ _ es hf, ?_⟩
+  · intro g hgm e he
+    rw [gkey_eq]
+    exact runsBy_homog (·.dst) es g hgm e he
+  · intro g hgm
+    obtain ⟨e0, rest, rfl⟩ := List.exists_cons_of_ne_nil (runsBy_ne_nil _ es g hgm)
+    apply hr
+    rw [← runsBy_flatten (·.dst) es]
+    exact List.mem_flatten.mpr ⟨_, hgm, List.mem_cons_self ..⟩
+
+/-- **Renumbering invariance of a pass.**  `π` renumbers the nodes `< n` (injective, into `< n`),
+`σ` the edge rows; `ops'`, `st'` are the transported operations and start state; `gs'` is ANY valid
+grouped order of the renumbered edges.  Then every node's result is unchanged. -/
+theorem passGroups_renumber {α : Type} [LinearOrder α] (π σ : Nat → Nat) (n : Nat)
+    (hinj : ∀ u v, u < n → v < n → π u = π v → u = v) (hlt : ∀ u, u < n → π u < n)
+    (ops ops' : PassOps β) (hrel : OpsRelabel π σ n ops ops') (hcomm : StepComm ops')
+    (gs : List (List DEdge)) (hv : ValidGroups gs n)
+    (hr : ∀ g ∈ gs, ∀ e ∈ g, e.src < n ∧ e.dst < n)
+    (gs' : List (List DEdge)) (hv' : ValidGroups gs' n)
+    (hperm : gs'.flatten.Perm (gs.map (List.map (relabelE π σ))).flatten)
+    (time' : Nat → α) (hval' : ∀ e ∈ gs'.flatten, time' e.src < time' e.dst)
+    (st st' : Array β) (hsz : st.size = n) (hsz' : st'.size = n)
+    (hst : ∀ u, u < n → aget st' (π u) = aget st u) :
+    ∀ u, u < n → aget (passGroups ops' st' gs') (π u) = aget (passGroups ops st gs) u := by
+  intro u hu
+  obtain ⟨rank, hrank⟩ := exists_rank time' gs'.flatten hval'
+  have hv1 := validGroups_relabel π σ n hinj hlt gs hv hr
+  rw [passGroups_perm ops' hcomm gs' (gs.map (List.map (relabelE π σ))) st'
+    (by rw [hsz']; exact hv') (by rw [hsz']; exact hv1) hperm rank hrank (π u)]
+  exact passGroups_relabel π σ n hinj hlt _ _ hrel gs hr st st' hsz hsz' hst u hu
+
 end PassLemmas
 
-/-! ### acyclicity from node times -/
-
-section Rank
-variable {α : Type} [LinearOrder α]
-
-theorem countP_lt_of_imp {γ : Type} (p q : γ → Bool) (l : List γ) (himp : ∀ x ∈ l, p x = true → q x = true)
-    (x : γ) (hx : x ∈ l) (hq : q x = true) (hp : p x = false) : l.countP p < l.countP q := by
-  induction l with
-  | nil => cases hx
-  | cons y l ih =>
-    have hle : l.countP p ≤ l.countP q :=
-      List.countP_mono_left (fun z hz => himp z (List.mem_cons_of_mem _ hz))
-    rw [List.countP_cons, List.countP_cons]
-    rcases List.mem_cons.mp hx with rfl | hxl
-    · simp only [hq, hp, if_true]
-      simp
-      omega
-    · have := ih (fun z hz => himp z (List.mem_cons_of_mem _ hz)) hxl
-      by_cases hpy : p y = true
-      · have hqy := himp y (List.mem_cons_self ..) hpy
-        simp only [hpy, hqy, if_true]; omega
-      · have hpy' : p y = false := by simpa using hpy
-        rw [hpy']
-        have h0 : (if false = true then 1 else 0) = 0 := by simp
-        rw [h0]
-        split_ifs <;> omega
-
-/-- strictly increasing node times along every edge give a natural-number rank (the number of
-edge sources that are strictly younger) that increases along every edge: the graph is acyclic -/
-theorem exists_rank (time : Nat → α) (es : List DEdge) (hval : ∀ e ∈ es, time e.src < time e.dst) :
-    ∃ rank : Nat → Nat, ∀ e ∈ es, rank e.src < rank e.dst := by
-  refine ⟨fun u => (es.map (fun e => time e.src)).countP (fun t => decide (t < time u)), ?_⟩
-  intro e he
-  apply countP_lt_of_imp _ _ _ _ (time e.src) (List.mem_map.mpr ⟨e, he, rfl⟩)
-  · simpa using hval e he
-  · simp
-  · intro t _ ht
-    have : t < time e.src := by simpa using ht
-    simpa using lt_trans this (hval e he)
-
-end Rank
 
 end Tsdate.Order
